@@ -58,6 +58,16 @@ Theorem C07_declared_method_without_error_refused : forall e ctx c args dsrc dtg
   call_method e ctx c args dsrc dtgt true s t st = GDiag D_ERR_NOT_RETURNED.
 Proof. exact fallible_call_in_declared_method_without_error_fails. Qed.
 
+(* both calls of mapField (plain field, map SRC F | FUNC) hand it the error path of the FIELD being set, so an error of a
+   fallible struct method or of a path element is located at that field (finding of seed C07-b) *)
+Module Sites.
+  Import String.
+  Theorem C07_mapfield_gets_the_field_path :
+    map (fun args => last args []) x_mapfield_calls = map s2r ["targetFieldPath"; "targetFieldPath"]%string.
+  Proof. reflexivity. Qed.
+End Sites.
+
+Print Assumptions Sites.C07_mapfield_gets_the_field_path.
 Print Assumptions C07_failing_call_errors.
 Print Assumptions C07_errors_originate.
 Print Assumptions C07_index_is_failing_position.
